@@ -44,8 +44,11 @@ func genC04(t *rapid.T, _ *evid.Rec) caseC04 {
 		v := rapid.SampledFrom([]int{480, 450, 60}).Draw(t, "defaultShould")
 		c.Env.DefaultShould = &v
 	}
-	o := gen.Opts{MaxRecords: 4, NearDay: c.Env.NowDay, NearSpan: 3, MaxEntries: 3}
+	o := gen.Opts{MaxRecords: 4, NearDay: c.Env.NowDay, NearSpan: 3, MaxEntries: 3, TabSeparators: true}
 	c.Doc = gen.Doc(t, o)
+	if rapid.IntRange(0, 11).Draw(t, "edgeDates") == 0 {
+		gen.EdgeDates(t, &c.Doc)
+	}
 	c.Layout = gen.Layout(t, len(c.Doc.Records))
 	// The generator follows the model's prediction so that later commands fit the evolving file.
 	state := c.Doc
